@@ -56,6 +56,10 @@ def lean_ty(t):
             return f"(Option {lean_ty(t[1])})"
         if t[0] == "tuple":
             return "(" + " × ".join(lean_ty(x) for x in t[1]) + ")"
+        if t[0] == "raw":
+            return t[1]
+        if t[0] == "match":      # a regex match object: the tuple of its groups
+            return "(" + " × ".join(["Str"] * t[1]) + ")" if t[1] > 1 else "Str"
         if t[0] == "dict":
             return f"(List ({lean_ty(t[1])} × {lean_ty(t[2])}))"
         if t[0] == "set":
@@ -67,7 +71,7 @@ def lean_ty(t):
             return "(" + " → ".join([lean_ty(a) for a in t[1]] + [res]) + ")"
     return {"int": "Int", "bool": "Bool", "str": "Str", "bytes": "(List Nat)", "row": "Row", "frag": "Fragment", "gap": "Gap",
             "ovres": "OverlapResult", "scaffold": "Scaffold", "bytesio": "PyRt.BytesIO", "unit": "Unit", "sink_str": "Str",
-            "sink_bytes": "(List Nat)", "nat": "Nat", "trtable": "(Char → Char)", "fastainfo": "FastaInfo", "ovref": "Nat", "premise": "Premise", "store": "(List Res)"}[t]
+            "sink_bytes": "(List Nat)", "nat": "Nat", "trtable": "(Char → Char)", "fastainfo": "FastaInfo", "ovref": "Nat", "premise": "Premise", "store": "(List Res)", "scref": "Nat", "ffref": "Nat", "found": "Found"}[t]
 
 
 # OBJECT TABLE: (type, python attribute) -> (result type, lean template, may raise)
@@ -93,6 +97,8 @@ ATTR = {
     ("scaffold", "rows"): (L("row"), "{0}.rows", False), ("scaffold", "name"): ("str", "{0}.name", False),
     ("fastainfo", "length"): ("int", "{0}.length", False),
     ("frag", "key_tuple"): (("tuple", ["str", "int", "int"]), "{0}.keyTuple", False),
+    ("found", "fragment"): ("frag", "{0}.fragment", False), ("found", "scaffolds"): (L("ovref"), "{0}.scaffolds", False),
+    ("found", "scaffold_count"): ("int", "(Int.ofNat {0}.scaffolds.length)", False),
     # overhang premises (heap kernels only: the templates read the store of OverlapResults)
     ("premise", "fragment"): ("frag", "{0}.fragment", False), ("premise", "scaffold"): ("ovref", "{0}.sid", False),
     ("premise", "bait_overlap"): ("int", "(Premise.baitOverlap {0} store)", True),
@@ -111,13 +117,19 @@ PURE_METHOD = {("frag", "abuts"): (["frag"], "bool", "(Fragment.abuts {0} {1})")
                ("scaffold", "reverse"): ([], "scaffold", "(Scaffold.reverse {0})"),
                # generator methods of Scaffold, as the lists they yield
                ("scaffold", "fragments"): ([], L("frag"), "(Scaffold.fragments {0})"),
-               ("bytesio", "getvalue"): ([], "bytes", "({0}).data")}
+               ("bytesio", "getvalue"): ([], "bytes", "({0}).data"),
+               ("ovres", "fragments"): ([], L("frag"), "(fragmentsOf {0}.rows)")}
 # methods that read (may raise): (type, method) -> (arg types, result type, template of an R-term)
 IMPURE_METHOD = {("ovres", "overhang_if_start_removed"): ([], "int", "(OverlapResult.overhangIfStartRemoved {0})"),
                  ("ovres", "overhang_if_end_removed"): ([], "int", "(OverlapResult.overhangIfEndRemoved {0})"),
                  ("ovres", "fragment_start_if_trimmed"): (["frag"], "int", "(OverlapResult.fragmentStartIfTrimmed {0} {1})"),
                  ("premise", "improves"): (["int"], "bool", "(Premise.improves {0} store {1})"),
                  ("premise", "makes_worse"): (["int"], "bool", "((Premise.improves {0} store {1}).map (fun b => !b))")}
+# re.match(<literal pattern>, s): the model's hand-written matcher for exactly that pattern text (tied separately: the T1 guards
+# `…Regex_expected : Gen.<name> = "<text>" := rfl` + the matcher-vs-`re` correspondence streams); any other pattern is outside the subset
+REGEX = {r"\s*$": ("(isBlankLine {0})", "bool"),
+         r"[#\s]+(.+)": ("(headerText {0})", O(("match", 1))),
+         r"(.+):(\d+)-(\d+)$": ("(tpfNameMatch {0})", O(("match", 3)))}
 ERR = {"ValueError": "value", "IndexError": "index", "KeyError": "key", "TypeError": "type", "NotImplementedError": "notImpl"}
 RESERVED = {"end", "from", "at", "in", "do", "then", "else", "if", "let", "have", "show", "fun", "match", "with", "where", "by", "open",
             "section", "namespace", "def", "theorem", "instance", "structure", "class", "deriving", "import", "max", "min", "new", "this", "rows"}
@@ -184,8 +196,28 @@ def assigned(stmts):
                     add(r)
             elif isinstance(n, ast.NamedExpr):
                 add(n.target.id)
+            elif isinstance(n, ast.Delete):
+                for t in n.targets:
+                    r = root_of(t)
+                    if r:
+                        add(r)
             elif isinstance(n, ast.Yield):
                 add("yielded_")
+            elif isinstance(n, ast.Call) and isinstance(n.func, ast.Attribute) and n.func.attr in ("add_header_line", "add_scaffold") and dotted(n.func.value):
+                add(dotted(n.func.value) + "_" + ("header" if n.func.attr == "add_header_line" else "scaffolds"))
+            elif isinstance(n, ast.Call) and isinstance(n.func, ast.Name) and n.func.id == "Scaffold":
+                add("heap_sc")
+            elif isinstance(n, ast.Call) and isinstance(n.func, ast.Name) and n.func.id == "FoundFragment":
+                add("heap_ff")
+            elif isinstance(n, ast.Call) and isinstance(n.func, ast.Attribute) and n.func.attr in ("add_scaffold", "remove_scaffold"):
+                add("heap_ff")
+            elif isinstance(n, ast.Call) and isinstance(n.func, ast.Attribute) and n.func.attr in ("add_overhang_premise", "make_fixes"):
+                add("store")
+                r = root_of(n.func.value)
+                if r:
+                    add(r)
+            elif isinstance(n, ast.Call) and isinstance(n.func, ast.Name) and n.func.id == "Fragment":
+                add("nextOid")
             elif isinstance(n, ast.Call) and isinstance(n.func, ast.Attribute) and n.func.attr in ("apply", "trim_fragment"):
                 add("store")
                 if n.func.attr == "trim_fragment":
@@ -203,6 +235,8 @@ def assigned(stmts):
                 r = root_of(n.func.value)
                 if r:
                     add(r)
+                if n.func.attr == "add_row":
+                    add("heap_sc")
     return out
 
 
@@ -246,11 +280,11 @@ class Kernel:
     def truthy(self, term, ty):
         if ty == "bool":
             return term
-        if isinstance(ty, tuple) and ty[0] == "list" or ty in ("str", "bytes"):
+        if isinstance(ty, tuple) and ty[0] in ("list", "dict", "set") or ty in ("str", "bytes"):
             return f"(!({term}).isEmpty)"
         if ty == "int":
             return f"(decide ({term} ≠ 0))"
-        if isinstance(ty, tuple) and ty[0] == "opt" and ty[1] in ("frag", "gap", "row", "scaffold", "ovres", "fastainfo"):
+        if isinstance(ty, tuple) and ty[0] == "opt" and (ty[1] in ("frag", "gap", "row", "scaffold", "ovres", "fastainfo", "scref", "ffref") or (isinstance(ty[1], tuple) and ty[1][0] == "match")):
             return f"({term}).isSome"
         if isinstance(ty, tuple) and ty[0] == "opt" and ty[1] == "int":
             # `if g := a.gap_between(b):` — None and 0 are both false
@@ -313,6 +347,8 @@ class Kernel:
             b, tb = self.expr(e.value, env, binds)
             if tb == "ovref":
                 b, tb = f"(getRes store {b})", "ovres"       # a reference to an OverlapResult: an index into the store
+            if tb == "ffref":
+                b, tb = f"(PyRt.getFound heap_ff {b})", "found"   # a reference to a FoundFragment: an index into their arena
             tb_k = tb if isinstance(tb, str) else "-"
             key = (tb_k, e.attr.lstrip("_") if (tb_k, e.attr) not in ATTR else e.attr)
             if key not in ATTR:
@@ -355,6 +391,13 @@ class Kernel:
                         raise Unsupported("slice bound")
                     return f"(PyRt.sliceRevFrom {b} {t})", tb
                 raise Unsupported("slice step")
+            if isinstance(tb, tuple) and tb[0] == "dict":
+                k, tk = self.expr(e.slice, env, binds)        # d[k]: KeyError when absent
+                if tk != tb[1]:
+                    raise Unsupported("dict key type")
+                nm = self.fresh()
+                binds.append((nm, f"(PyRt.dictGet {b} {k})", tb[2]))
+                return nm, tb[2]
             i, ti = self.expr(e.slice, env, binds)
             if isinstance(ti, tuple) and ti[0] == "opt" and ti[1] == "int":
                 nm = self.fresh()
@@ -428,6 +471,15 @@ class Kernel:
             if ta == "bytes" and tb == "int" and isinstance(e.op, ast.Mult):
                 return f"(PyRt.bytesRepeat {a} {b})", "bytes"
             raise Unsupported(f"operator {type(e.op).__name__} on {ta}, {tb}")
+        if isinstance(e, ast.UnaryOp) and isinstance(e.op, ast.Not) and isinstance(e.operand, ast.Compare) and len(e.operand.ops) == 1 \
+                and type(e.operand.ops[0]) in (ast.Lt, ast.LtE, ast.Gt, ast.GtE):
+            # NORMAL FORM: `not a <= b` is written `a > b` (integers / no NaN in the translated subset): both spellings give the same Lean text
+            flip = {ast.Lt: ast.GtE, ast.LtE: ast.Gt, ast.Gt: ast.LtE, ast.GtE: ast.Lt}[type(e.operand.ops[0])]
+            sub = []
+            lt, ltt = self.expr(e.operand.left, env, sub)
+            rt, rtt = self.expr(e.operand.comparators[0], env, sub)
+            if ltt == rtt == "int":
+                return self.expr(ast.Compare(left=e.operand.left, ops=[flip()], comparators=e.operand.comparators), env, binds)
         if isinstance(e, ast.UnaryOp):
             a, ta = self.expr(e.operand, env, binds)
             if isinstance(e.op, ast.USub) and ta == "int":
@@ -455,6 +507,12 @@ class Kernel:
                         else:
                             raise Unsupported(f"identity of {ltt} and {rtt}")
                         parts.append(f"(!{c})" if neg else c)
+                elif isinstance(op, (ast.In, ast.NotIn)) and isinstance(right, (ast.Tuple, ast.List)):
+                    rt, rtt = self.expr(right, env, binds)
+                    if rtt != L(ltt):
+                        raise Unsupported("membership test types")
+                    c = f"(({rt}).contains {lt})"
+                    parts.append(f"(!{c})" if isinstance(op, ast.NotIn) else c)
                 else:
                     rt, rtt = self.expr(right, env, binds)
                     sym = {ast.Eq: "=", ast.NotEq: "≠", ast.Lt: "<", ast.LtE: "≤", ast.Gt: ">", ast.GtE: "≥"}.get(type(op))
@@ -576,6 +634,83 @@ class Kernel:
                 binds.append((v, term, rty))
                 return v, rty
             return term, rty
+        if dotted(f) == "re.match" and len(e.args) == 2 and not e.keywords and isinstance(e.args[0], ast.Constant) and isinstance(e.args[0].value, str):
+            pat = e.args[0].value
+            if pat not in REGEX:
+                raise Unsupported(f"regular expression {pat!r} has no matcher in the model")
+            t, ty = self.expr(e.args[1], env, binds)
+            if ty != "str":
+                raise Unsupported("re.match on a non-str")
+            tmpl, rty = REGEX[pat]
+            return tmpl.format(t), rty
+        if isinstance(f, ast.Name) and f.id == "tuple" and len(e.args) == 1 and not e.keywords:
+            t, ty = self.expr(e.args[0], env, binds)
+            if isinstance(ty, tuple) and ty[0] == "list":
+                return t, ty
+            raise Unsupported("tuple() of a non-list")
+        if isinstance(f, ast.Name) and f.id == "Gap" and not e.args and {k.arg for k in e.keywords} == {"length", "gap_type"}:
+            kw = {k.arg: k.value for k in e.keywords}
+            order = [k.arg for k in e.keywords]
+            vals = {}
+            for k in order:                       # keyword arguments are evaluated in the order written
+                vals[k] = self.expr(kw[k], env, binds)
+            ln, tl = vals["length"]
+            gt, tg = vals["gap_type"]
+            if tg != "str":
+                raise Unsupported("Gap(gap_type=…) type")
+            if tl == "str":                       # Gap.__init__: int(length) — ValueError for text that is not an integer
+                nm = self.fresh()
+                binds.append((nm, f"(pyInt {ln})", "int"))
+                ln = nm
+            elif tl != "int":
+                raise Unsupported("Gap(length=…) type")
+            return f"({{ length := {ln}, gapType := {gt} }} : Gap)", "gap"
+        if isinstance(f, ast.Name) and f.id == "Fragment" and not e.args and {k.arg for k in e.keywords} in ({"name", "start", "end", "strand", "tags"}, {"name", "start", "end", "strand"}) \
+                and "nextOid" in env:
+            vals = {}
+            for k in e.keywords:                  # evaluated in the order written
+                vals[k.arg] = self.expr(k.value, env, binds)
+            def as_int(key):                      # Fragment.__init__: int(start) / int(end) / int(strand), in that order
+                t, ty = vals[key]
+                if ty == "str":
+                    nm = self.fresh()
+                    binds.append((nm, f"(pyInt {t})", "int"))
+                    return nm
+                if ty != "int":
+                    raise Unsupported(f"Fragment({key}=…) type")
+                return t
+            if vals["name"][1] != "str":
+                raise Unsupported("Fragment(name=…) type")
+            st, en, sd = as_int("start"), as_int("end"), as_int("strand")
+            tags = self.coerce(*vals["tags"], L("str")) if "tags" in vals else "[]"
+            v = self.fresh()
+            binds.append((v, f"(mkFragment nextOid {vals['name'][0]} {st} {en} {sd} {tags})", "frag"))
+            binds.append(("nextOid", "(nextOid + 1)", "nat", "let"))
+            return v, "frag"
+        if isinstance(f, ast.Name) and f.id == "FoundFragment" and len(e.args) == 1 and not e.keywords and "heap_ff" in env:
+            t, ty = self.expr(e.args[0], env, binds)
+            if ty != "frag":
+                raise Unsupported("FoundFragment(fragment) type")
+            r = self.fresh("ref")
+            binds.append((r, "heap_ff.length", "ffref", "let"))
+            binds.append(("heap_ff", f"(heap_ff ++ [({{ fragment := {t}, scaffolds := [] }} : Found)])", L("found"), "let"))
+            return r, "ffref"
+        if isinstance(f, ast.Name) and f.id == "OverhangResolver" and len(e.args) == 1 and not e.keywords:
+            # a new resolver object: its state is the (empty) dictionary of premise lists; the error length is remembered by name
+            t, ty = self.expr(e.args[0], env, binds)
+            if ty != "int":
+                raise Unsupported("OverhangResolver(error_length) type")
+            self.resolver_err = t
+            return "[]", ("dict", KEY_T, L("premise"))
+        if isinstance(f, ast.Name) and f.id == "Scaffold" and len(e.args) == 1 and not e.keywords and "heap_sc" in env:
+            # a NEW Scaffold object: allocated in the arena of scaffolds, the value is a reference to it
+            t, ty = self.expr(e.args[0], env, binds)
+            if ty != "str":
+                raise Unsupported("Scaffold(name) type")
+            r = self.fresh("ref")
+            binds.append((r, "heap_sc.length", "scref", "let"))
+            binds.append(("heap_sc", f"(heap_sc ++ [({{ name := {t} }} : Scaffold)])", L("scaffold"), "let"))
+            return r, "scref"
         if isinstance(f, ast.Attribute) and dotted(f) == "io.BytesIO":
             f = ast.Name(id="BytesIO", ctx=ast.Load())
         if isinstance(f, ast.Name) and not e.keywords:
@@ -729,6 +864,26 @@ class Kernel:
                 t, ty = self.expr(f.value, env, binds)
                 if ty == "str":
                     return f"(strToBytes {t})", "bytes"
+            if m == "make_fixes" and not e.args and isinstance(f.value, ast.Name) and env.get(f.value.id) == ("dict", KEY_T, L("premise")) and "store" in env:
+                # a call of ANOTHER TRANSLATED KERNEL (defined earlier in this file)
+                nm = self.fresh("mf")
+                binds.append((nm, f"(OverhangResolver_make_fixes_imp store {mg(f.value.id)} {self.resolver_err})", ("tuple", ["store", L("premise")])))
+                binds.append(("store", f"{nm}.1", "store", "let"))
+                return f"{nm}.2", L("premise")
+            if m == "pop" and len(e.args) == 1:
+                # `xs.pop(i)` used as an expression: the list moves on, the popped element is the value
+                cont, tc = self.expr(f.value, env, binds)
+                i, ti = self.expr(e.args[0], env, binds)
+                if not (isinstance(tc, tuple) and tc[0] == "list") or ti != "int":
+                    raise Unsupported("pop shape")
+                nm = self.fresh("pp")
+                binds.append((nm, f"(PyRt.pop {cont} {i})", ("tuple", [tc[1], tc])))
+                lines, _ = self.store_back(f.value, f"{nm}.2", tc, env)
+                for l in lines:      # `let x : T := term`
+                    head, term = l[4:].split(" := ", 1)
+                    name, ty_txt = head.split(" : ", 1)
+                    binds.append((name, term, ("raw", ty_txt), "let"))
+                return f"{nm}.1", tc[1]
             b, tb = self.expr(f.value, env, binds)
             if tb == "ovref" and m == "trim_fragment" and len(e.args) == 3 and "nextOid" in env:
                 # a mutating method reached through a reference, used as an expression: the store and the object-id counter move on
@@ -742,6 +897,8 @@ class Kernel:
                 return f"{tf}.2", "frag"
             if tb == "ovref":
                 b, tb = f"(getRes store {b})", "ovres"
+            if tb == "ffref":
+                b, tb = f"(PyRt.getFound heap_ff {b})", "found"
             key = (tb if isinstance(tb, str) else "-", m)
             if key in IMPURE_METHOD:
                 argt, rty, tmpl = IMPURE_METHOD[key]
@@ -764,6 +921,22 @@ class Kernel:
             if tb == "bytes" and m == "translate" and len(e.args) == 1 and isinstance(e.args[0], ast.Name) and e.args[0].id == "IUPAC_COMPLEMENT":
                 # the module-level complement table: the model's `comp` reads the table EXTRACTED from the source (Gen.complementTable, T1)
                 return f"(({b}).map comp)", "bytes"
+            if isinstance(tb, tuple) and tb[0] == "match" and m == "group" and len(e.args) == 1 and isinstance(e.args[0], ast.Constant) \
+                    and isinstance(e.args[0].value, int) and 1 <= e.args[0].value <= tb[1]:
+                k, n = e.args[0].value - 1, tb[1]
+                if n == 1:
+                    return b, "str"
+                proj = b + "".join(".2" for _ in range(k)) + (".1" if k < n - 1 else "")
+                return f"({proj})", "str"
+            if tb == "str" and m == "startswith" and len(e.args) == 1 and isinstance(e.args[0], ast.Constant) and isinstance(e.args[0].value, str):
+                return f"(startsWith {lit_str(e.args[0].value)} {b})", "bool"
+            if tb == "str" and m == "rstrip" and not e.args:
+                return f"(rstripBy isSpace {b})", "str"
+            if tb == "str" and m == "rstrip" and len(e.args) == 1 and isinstance(e.args[0], ast.Constant) and isinstance(e.args[0].value, str):
+                chars = "[" + ", ".join(char_lit(c) for c in e.args[0].value) + "]"
+                return f"(rstripBy (fun c => ({chars} : List Char).contains c) {b})", "str"
+            if tb == "str" and m == "split" and len(e.args) == 1 and isinstance(e.args[0], ast.Constant) and isinstance(e.args[0].value, str) and len(e.args[0].value) == 1:
+                return f"(splitOnChar {char_lit(e.args[0].value)} {b})", L("str")
             if tb == "str" and m == "translate" and len(e.args) == 1:
                 tbl, tt = self.expr(e.args[0], env, binds)
                 if tt != "trtable":
@@ -846,6 +1019,8 @@ class Kernel:
             if name not in ERR:
                 raise Unsupported("raise of an unsupported exception")
             return [f".error .{ERR[name]}"]
+        if isinstance(s, ast.Return) and isinstance(s.value, ast.Name) and s.value.id in self.spec.get("assembly_objects", []):
+            return self.ret(env, loop, "()")              # `return asm`: the roots ARE the assembly
         if isinstance(s, ast.Return):
             if s.value is None:
                 if self.ret_ty != "unit" and not (isinstance(self.ret_ty, tuple) and self.ret_ty[0] == "opt"):
@@ -871,6 +1046,25 @@ class Kernel:
             tgt_load = ast.parse(ast.unparse(s.target), mode="eval").body
             new = ast.Assign(targets=[s.target], value=ast.BinOp(left=tgt_load, op=op, right=s.value))
             return self.assign(new, rest, env, loop)
+        if isinstance(s, ast.Delete) and len(s.targets) == 1 and isinstance(s.targets[0], ast.Subscript) and isinstance(s.targets[0].value, ast.Name) \
+                and s.targets[0].value.id in self.aliases and isinstance(env.get(self.aliases[s.targets[0].value.id]), tuple) and env[self.aliases[s.targets[0].value.id]][0] == "dict":
+            # del d[k]  (KeyError when absent)
+            binds = []
+            d = self.aliases[s.targets[0].value.id]
+            k, tk = self.expr(s.targets[0].slice, env, binds)
+            nm = self.fresh("dd")
+            binds.append((nm, f"(PyRt.dictDel {d} {k})", env[d]))
+            return self.with_binds(binds, [self.let(d, env[d], nm)] + self.block(rest, env, loop))
+        if isinstance(s, ast.Delete) and len(s.targets) == 1 and isinstance(s.targets[0], ast.Subscript) and isinstance(s.targets[0].slice, ast.Slice) \
+                and s.targets[0].slice.lower is None and s.targets[0].slice.step is None and s.targets[0].slice.upper is not None:
+            # del xs[:n]
+            binds = []
+            cont, tc = self.expr(s.targets[0].value, env, binds)
+            n, tn = self.expr(s.targets[0].slice.upper, env, binds)
+            if not (isinstance(tc, tuple) and tc[0] == "list") or tn != "int":
+                raise Unsupported("del of a slice")
+            lines, env2 = self.store_back(s.targets[0].value, f"(PyRt.slice {cont} (some {n}) none)", tc, env)
+            return self.with_binds(binds, lines + self.block(rest, env2, loop))
         if isinstance(s, ast.Expr) and isinstance(s.value, ast.Yield) and s.value.value is not None and "yields" in self.spec:
             # a generator is translated to the LIST of the values it yields (sound for a generator without side effects between yields that a
             # consumer could observe; the kernels marked `yields` only read)
@@ -909,6 +1103,10 @@ class Kernel:
         if want in ("none", "emptylist"):
             raise Unsupported(f"type of local `{name}` is not determined (declare it in the kernel's `locals`)")
         env2 = dict(env)
+        if isinstance(want, tuple) and want[0] == "opt" and ty == want[1]:
+            # a definite (non-None) value assigned to a variable that may also hold None: narrowed until the next join / loop boundary
+            env2[name] = ty
+            return self.let(name, ty, term), env2
         env2[name] = want
         return self.let(name, want, self.coerce(term, ty, want)), env2
 
@@ -973,12 +1171,17 @@ class Kernel:
         if isinstance(tg, ast.Name):
             # alias of an output object: `out = self.out`
             p = dotted(s.value)
+            if p and p in self.spec.get("dict_roots", {}) and isinstance(self.spec["dict_roots"][p], tuple) and self.spec["dict_roots"][p][0] == "dict":
+                self.aliases[tg.id] = p.replace(".", "_")       # a second name for a dictionary attribute
+                return self.block(rest, env, loop)
             if p and p in self.spec.get("sinks", {}):
                 self.aliases[tg.id] = sink_name(p)
                 return self.block(rest, env, loop)
             if p and p in self.spec.get("attr_params", {}) and self.spec["attr_params"][p] in ("opaque_obj",):
                 self.aliases[tg.id] = p.replace(".", "_")
                 return self.block(rest, env, loop)
+            if isinstance(s.value, ast.Call) and isinstance(s.value.func, ast.Name) and s.value.func.id == "Assembly" and tg.id in self.spec.get("assembly_objects", []):
+                return self.block(rest, env, loop)        # `asm = Assembly(name)`: its header / scaffolds are the declared roots, initially empty
             if isinstance(s.value, ast.Call) and isinstance(s.value.func, ast.Attribute) and s.value.func.attr == "pop":
                 return self.pop_stmt(tg.id, s.value, rest, env, loop)
             if isinstance(s.value, ast.Call) and isinstance(s.value.func, ast.Attribute) and s.value.func.attr == "read" \
@@ -995,6 +1198,15 @@ class Kernel:
             fty = ATTR[(tb, tg.attr)][0]
             l = self.let(tg.value.id, tb, f"{{ {b} with {FIELD[(tb, tg.attr)]} := {self.coerce(t, ty, fty)} }}")
             return self.with_binds(binds, [l] + self.block(rest, env, loop))
+        if isinstance(tg, ast.Subscript) and isinstance(tg.value, ast.Name) and tg.value.id in self.aliases and isinstance(env.get(self.aliases[tg.value.id]), tuple) \
+                and env[self.aliases[tg.value.id]][0] == "dict":
+            d = self.aliases[tg.value.id]
+            td = env[d]
+            k, tk = self.expr(tg.slice, env, binds)
+            v, tv = self.expr(s.value, env, binds)
+            if tk != td[1] or tv != td[2]:
+                raise Unsupported("dict item assignment types")
+            return self.with_binds(binds, [self.let(d, td, f"dSet {d} {k} {v}")] + self.block(rest, env, loop))
         if isinstance(tg, ast.Subscript) and dotted(tg.value) in self.spec.get("dict_roots", {}):
             d = dotted(tg.value).replace(".", "_")
             td = env[d]
@@ -1032,6 +1244,9 @@ class Kernel:
 
     def store_back(self, target, term, ty, env):
         """write `term` into the place `target` denotes (a local list, or a field of a root object)"""
+        if dotted(target) in self.spec.get("dict_roots", {}):
+            nm = dotted(target).replace(".", "_")
+            return [self.let(nm, env[nm], term)], env
         if isinstance(target, ast.Name):
             n = self.aliases.get(target.id, target.id)
             if n not in env:
@@ -1161,6 +1376,42 @@ class Kernel:
                 obj = self.aliases.get(f.value.id, f.value.id)
                 n, tn = self.expr(c.args[0], env, binds)
                 return self.with_binds(binds, [self.let(obj, "bytesio", f"PyRt.BytesIO.seek {mg(obj)} {n}")] + self.block(rest, env, loop))
+            if isinstance(f.value, ast.Name) and env.get(f.value.id) == "ffref" and m in ("add_scaffold", "remove_scaffold") and len(c.args) == 1 and "heap_ff" in env:
+                # FoundFragment.add_scaffold / remove_scaffold through a reference: `self.scaffolds.append(x)` / `self.scaffolds.remove(x)` (ValueError if absent)
+                v, tv = self.expr(c.args[0], env, binds)
+                if tv != "ovref":
+                    raise Unsupported("FoundFragment scaffold argument")
+                r = mg(f.value.id)
+                if m == "add_scaffold":
+                    return self.with_binds(binds, [self.let("heap_ff", L("found"), f"PyRt.foundAdd heap_ff {r} {v}")] + self.block(rest, env, loop))
+                nm = self.fresh("rm")
+                binds.append((nm, f"(PyRt.foundRemove heap_ff {r} {v})", L("found")))
+                return self.with_binds(binds, [self.let("heap_ff", L("found"), nm)] + self.block(rest, env, loop))
+            if isinstance(f.value, ast.Name) and env.get(f.value.id) == ("dict", KEY_T, L("premise")) and m == "add_overhang_premise" and len(c.args) == 2 and "store" in env:
+                # a call of ANOTHER TRANSLATED KERNEL (defined earlier in this file): OverhangResolver.add_overhang_premise
+                a, ta = self.expr(c.args[0], env, binds)
+                b, tb = self.expr(c.args[1], env, binds)
+                if (ta, tb) != ("frag", "ovref"):
+                    raise Unsupported("add_overhang_premise arguments")
+                nm = self.fresh("ap")
+                binds.append((nm, f"(OverhangResolver_add_overhang_premise store {mg(f.value.id)} {a} {b})", ("tuple", ["store", ("dict", KEY_T, L("premise"))])))
+                return self.with_binds(binds, [self.let("store", "store", f"{nm}.1"), self.let(f.value.id, ("dict", KEY_T, L("premise")), f"{nm}.2")] + self.block(rest, env, loop))
+            if isinstance(f.value, ast.Name) and f.value.id in self.spec.get("assembly_objects", []) and len(c.args) == 1 and m in ("add_header_line", "add_scaffold"):
+                attr = "header" if m == "add_header_line" else "scaffolds"      # Assembly.add_header_line / add_scaffold: list.append
+                tgt = ast.Attribute(value=f.value, attr=attr, ctx=ast.Load())
+                new_call = ast.Call(func=ast.Attribute(value=tgt, attr="append", ctx=ast.Load()), args=c.args, keywords=[])
+                return self.call_stmt(new_call, rest, env, loop)
+            if isinstance(f.value, ast.Name) and m == "add_row" and len(c.args) == 1 and "heap_sc" in env \
+                    and env.get(f.value.id) in ("scref", O("scref")):
+                # `scaffold.add_row(row)` through a reference: the attribute lookup comes first (AttributeError on None), then the argument
+                r, tr_ = mg(f.value.id), env[f.value.id]
+                if tr_ == O("scref"):
+                    nm = self.fresh("ref")
+                    binds.append((nm, f"(PyRt.needObj {r})", "scref"))
+                    r = nm
+                v, tv = self.expr(c.args[0], env, binds)
+                row = self.coerce_elem(v, tv, "row")
+                return self.with_binds(binds, [self.let("heap_sc", L("scaffold"), f"PyRt.arenaAddRow heap_sc {r} {row}")] + self.block(rest, env, loop))
             if isinstance(f.value, ast.Name) and env.get(f.value.id) == "scaffold" and m == "add_row" and len(c.args) == 1:
                 # Scaffold.add_row(row) is `self.rows.append(row)`
                 tgt = ast.Attribute(value=f.value, attr="rows", ctx=ast.Load())
@@ -1195,9 +1446,28 @@ class Kernel:
             a = self.block(list(none_body) + ([] if always_exits(none_body) else rest), env, loop)
             b = self.block(list(some_body) + ([] if (some_body and always_exits(some_body)) else rest), env_some, loop)
             return [f"match {mg(x)} with", "| none =>"] + ind(a) + [f"| some {mg(x)} =>"] + ind(b)
+        def opt_attr(n):
+            p = dotted(n) if isinstance(n, ast.Attribute) else None
+            ty = self.spec.get("attr_params", {}).get(p) if p else None
+            return p if (isinstance(ty, tuple) and ty[0] == "opt") else None
+        head = test.values[0] if (isinstance(test, ast.BoolOp) and isinstance(test.op, ast.And)) else (test.operand if isinstance(test, ast.UnaryOp) and isinstance(test.op, ast.Not) else test)
+        if opt_attr(head):
+            path = opt_attr(head)
+            tmp = "opt_" + path.replace(".", "_")
+
+            class Sub(ast.NodeTransformer):
+                def visit_Attribute(self, node):
+                    if dotted(node) == path:
+                        return ast.Name(id=tmp, ctx=ast.Load())
+                    return self.generic_visit(node)
+            new_if = Sub().visit(ast.parse(ast.unparse(s)).body[0])
+            rest2 = [Sub().visit(ast.parse(ast.unparse(r)).body[0]) for r in rest]
+            asg = ast.Assign(targets=[ast.Name(id=tmp, ctx=ast.Store())], value=head)
+            return self.block([asg, new_if] + rest2, env, loop)
+
         def opt_obj(n):
             return isinstance(n, ast.Name) and isinstance(env.get(n.id), tuple) and env[n.id][0] == "opt" \
-                and (env[n.id][1] in ("frag", "gap", "row", "scaffold", "ovres", "fastainfo") or (isinstance(env[n.id][1], tuple) and env[n.id][1][0] == "tuple" and env[n.id][1][1]))
+                and (env[n.id][1] in ("frag", "gap", "row", "scaffold", "ovres", "fastainfo", "scref", "ffref") or (isinstance(env[n.id][1], tuple) and env[n.id][1][0] == "match") or (isinstance(env[n.id][1], tuple) and env[n.id][1][0] == "tuple" and env[n.id][1][1]))
         if isinstance(test, ast.UnaryOp) and isinstance(test.op, ast.Not) and opt_obj(test.operand):
             isnone = ast.Compare(left=ast.Name(id=test.operand.id, ctx=ast.Load()), ops=[ast.Is()], comparators=[ast.Constant(value=None)])
             return self.if_stmt(ast.If(test=isnone, body=s.body, orelse=s.orelse), rest, env, loop)
@@ -1221,7 +1491,10 @@ class Kernel:
                 if n in env and n not in [j for j, _ in join]:
                     join.append((n, env[n]))
             if not join:
-                raise Unsupported("an `if` that assigns nothing visible")
+                # the branches only introduce NEW locals (e.g. `chosen = a` / `chosen = b`): duplicate the continuation instead of joining
+                a = self.block(list(s.body) + rest, env, loop)
+                b = self.block(list(s.orelse) + rest, env, loop)
+                return self.with_binds(binds, [f"if {c} = true then"] + ind(a) + ["else"] + ind(b))
             saved = self.ret_ty
             a = self.block_join(list(s.body), env, join)
             b = self.block_join(list(s.orelse), env, join)
@@ -1260,6 +1533,17 @@ class Kernel:
     def loop_stmt(self, s, rest, env, loop, is_for):
         if s.orelse:
             raise Unsupported("loop with else clause")
+        if not is_for:
+            # NORMAL FORMS of `while` (so that equivalent spellings give the same Lean text):
+            #   `while True: if not C: break; REST`  ==>  `while C: REST`
+            #   `while (x := e): B`                  ==>  `while True: if x := e: B else: break`
+            t = s.test
+            if isinstance(t, ast.Constant) and t.value is True and s.body and isinstance(s.body[0], ast.If) and not s.body[0].orelse \
+                    and len(s.body[0].body) == 1 and isinstance(s.body[0].body[0], ast.Break) \
+                    and isinstance(s.body[0].test, ast.UnaryOp) and isinstance(s.body[0].test.op, ast.Not) and len(s.body) > 1:
+                s = ast.While(test=s.body[0].test.operand, body=s.body[1:], orelse=[])
+            elif isinstance(t, ast.NamedExpr):
+                s = ast.While(test=ast.Constant(value=True), body=[ast.If(test=t, body=s.body, orelse=[ast.Break()])], orelse=[])
         binds = []
         env_body = dict(env)
         loopvars = []
@@ -1351,7 +1635,7 @@ def sink_name(path):
 
 
 def char_lit(c):
-    return {"\t": "'\\t'", "\n": "'\\n'"}.get(c, f"'{c}'")
+    return {"\t": "'\\t'", "\n": "'\\n'", "\r": "'\\r'"}.get(c, f"'{c}'")
 
 
 def uses_only_in(node, name):
@@ -1417,6 +1701,17 @@ def translate(spec):
                 env["nextOid"] = "nat"
                 k.roots.append(("nextOid", "nat"))
                 k.param("nextOid", "nat")
+        if spec.get("arena"):
+            env["heap_sc"] = L("scaffold")
+            k.roots.append(("heap_sc", L("scaffold")))
+        if spec.get("found_arena"):
+            env["heap_ff"] = L("found")
+            k.roots.append(("heap_ff", L("found")))
+            k.param("heap_ff", L("found"))
+        if spec.get("oid_counter") and not spec.get("heap"):
+            env["nextOid"] = "nat"
+            k.roots.append(("nextOid", "nat"))
+            k.param("nextOid", "nat")
         if "yields" in spec:
             env["yielded_"] = L(spec["yields"])
             k.roots.append(("yielded_", L(spec["yields"])))
@@ -1427,7 +1722,8 @@ def translate(spec):
             nm = p.replace(".", "_")
             env[nm] = ty
             k.roots.append((nm, ty))
-            k.param(nm, ty)
+            if p not in spec.get("init_empty", []):
+                k.param(nm, ty)
         for p, ty in spec.get("params", {}).items():
             if ty in ("sink_str", "sink_bytes"):
                 env[p] = ty
@@ -1444,9 +1740,9 @@ def translate(spec):
     if k.ret_ty != "unit":
         parts.append(lean_ty(k.ret_ty))
     rty = "Unit" if not parts else " × ".join(parts)
-    sink_inits = [f"  let {mg(n)} : {lean_ty(t)} := []" for n, t in k.roots if t in ("sink_str", "sink_bytes") or n == "yielded_" or n in spec.get("extra_roots", {})]
+    sink_inits = [f"  let {mg(n)} : {lean_ty(t)} := []" for n, t in k.roots if t in ("sink_str", "sink_bytes") or n == "yielded_" or n == "heap_sc" or n in spec.get("extra_roots", {}) or n in [p.replace(".", "_") for p in spec.get("init_empty", [])]]
     # parameter order = the order of the kernel's declaration (params, attr_params, opaque, then newOid): independent of the order of use
-    order = ["store", "nextOid"] + [p.replace(".", "_") for p in spec.get("dict_roots", {})] + [mg(n) for n in spec.get("params", {})] + [p.replace(".", "_") for p in spec.get("attr_params", {})] \
+    order = ["store", "nextOid", "heap_ff"] + [p.replace(".", "_") for p in spec.get("dict_roots", {})] + [mg(n) for n in spec.get("params", {})] + [p.replace(".", "_") for p in spec.get("attr_params", {})] \
         + [p.replace(".", "_") for p in spec.get("opaque", {})] + ["newOid"]
     k.params.sort(key=lambda nt: order.index(nt[0]) if nt[0] in order else len(order))
     params = ("(fuel : Nat) " if k.uses_fuel else "") + " ".join(f"({n} : {lean_ty(t)})" for n, t in k.params)
@@ -1523,6 +1819,23 @@ IMP_KERNELS_5 = [
          attr_params={"scffld.input_predecessor": O(("tuple", ["frag", L("row")])), "self.default_gap": O("gap")}),
 ]
 
+IMP_KERNELS_6 = [
+    dict(file="assembly/parser.py", qual="parse_agp", lean="parse_agp_imp", arena=True, oid_counter=True, assembly_objects=["asm"],
+         params={"file": L("str")}, locals={"scaffold": O("scref")},
+         dict_roots={"asm.header": L("str"), "asm.scaffolds": L("scref")}, init_empty=["asm.header", "asm.scaffolds"]),
+    dict(file="assembly/parser.py", qual="parse_tpf", lean="parse_tpf_imp", arena=True, oid_counter=True, assembly_objects=["asm"],
+         params={"file": L("str")}, locals={"scaffold": O("scref")}, opaque={"lowercase_and_dash_to_underscore": ([], "trtable", False)},
+         dict_roots={"asm.header": L("str"), "asm.scaffolds": L("scref")}, init_empty=["asm.header", "asm.scaffolds"]),
+]
+
+FF_DICT = ("dict", KEY_T, "ffref")
+IMP_KERNELS_7 = [
+    dict(file="assembly/build_assembly.py", qual="BuildAssembly.store_fragments_found", lean="BuildAssembly_store_fragments_found", heap=True, found_arena=True,
+         params={"scffld": "ovref"}, dict_roots={"self.found_fragments": FF_DICT, "self.fragments_found_more_than_once": FF_DICT}),
+    dict(file="assembly/build_assembly.py", qual="BuildAssembly.discard_overhanging_fragments", lean="BuildAssembly_discard_overhanging_fragments",
+         heap=True, found_arena=True, attr_params={"self.error_length": "int"}, dict_roots={"self.fragments_found_more_than_once": FF_DICT}),
+]
+
 IMP_KERNELS = [
     dict(file="assembly/indexed_assembly.py", qual="IndexedAssembly.find_overlaps", lean="IndexedAssembly_find_overlaps",
          params={"bait": "frag"}, returns=O("ovres"), locals={"ovr": O("int")},
@@ -1553,8 +1866,8 @@ IMP_KERNELS = [
 
 def main():
     parts = ["/- GENERATED by harness/translate_imp.py from /repo/src — do not edit -/", "import AgpTpf.Model.PyRt", "import AgpTpf.Model.PyRtHeap", "import AgpTpf.Model.Lookup",
-             "import AgpTpf.Model.Fasta", "set_option linter.unusedVariables false", "namespace AgpTpf.Gen.Imp", "open AgpTpf", ""]
-    for spec in IMP_KERNELS + IMP_KERNELS_2 + IMP_KERNELS_3 + IMP_KERNELS_4 + IMP_KERNELS_5:
+             "import AgpTpf.Model.Fasta", "import AgpTpf.Model.Text", "set_option linter.unusedVariables false", "namespace AgpTpf.Gen.Imp", "open AgpTpf", ""]
+    for spec in IMP_KERNELS + IMP_KERNELS_2 + IMP_KERNELS_3 + IMP_KERNELS_4 + IMP_KERNELS_5 + IMP_KERNELS_6 + IMP_KERNELS_7:
         parts.append(translate(spec))
     parts.append("end AgpTpf.Gen.Imp\n")
     txt = "\n".join(parts)
